@@ -21,13 +21,26 @@ def jobs(tier):
                      **(dict(sym_draws=3 if tier == 'quick' else 5) if unit == 'gen_func_call' else {}))
                 if unit in ('gen_func_call', 'gen_field_access')
                 else (dict(nvars=0, with_nested=False) if unit == 'select_superclass' else dict(nvars=nv)))
+            extra.setdefault('sym_draws', 4 if tier == 'quick' else 6)
             out.append(Job('%s-%s' % (unit, lang), U.harness, dict(lang=lang, unit=unit, aspect=ASPECT, **extra),
                            split_depth=6, functions=U.FUNCS[unit], stubs=U.STUBS, require_events=['unit:%s' % unit],
                            budget_s=2400, crosscheck_every=500,
                            bounds='scope: top-level variable + %d local variable(s) of symbolic type (5 pool types) and finality, '
                                   'optional nested function scope; expected type (6) and subtype flag symbolic; every RNG outcome '
-                                  '(gen_func_call: of the first 3 (thorough 5) draws, later draws take the first element)'
+                                  'of the first 4 (thorough 6) draws -- gen_func_call 3 (5); later draws take the first element'
                                   % nv, outside=U.OUT))
+        out.append(Job('gen_assignment-projected-%s' % lang, U.harness,
+                       dict(lang=lang, unit='gen_assignment', aspect=ASPECT, nvars=0, with_nested=False, projected=True),
+                       split_depth=6, functions=U.FUNCS['gen_assignment'], stubs=U.STUBS, require_events=['unit:gen_assignment'],
+                       budget_s=2400, crosscheck_every=500,
+                       bounds='scope: top-level variable of symbolic type and finality + a local of the use-site projected type '
+                              'Hh<out Aa> whose class has the non-final field hf: Gg<T2>; every RNG outcome', outside=U.OUT))
+        out.append(Job('generate_expr-bounded-%s' % lang, U.harness,
+                       dict(lang=lang, unit='generate_expr', aspect=ASPECT, nvars=0, with_nested=False, bounded=True),
+                       split_depth=6, functions=U.FUNCS['generate_expr'], stubs=U.STUBS, require_events=['unit:generate_expr'],
+                       budget_s=2400, crosscheck_every=500,
+                       bounds='expected type one of Kk<in Bb>, Kk<out Bb>, Kk<Bb> for the class Kk<T3 : Bb> (Bb : Aa); every RNG '
+                              'outcome', outside=U.OUT))
     return out
 
 
